@@ -5,6 +5,11 @@ the index names derived from the store locations are what keeps them apart). Eve
 remote; every clause is evaluated per (remote, its own index) - after every step for ALL remotes, so that
 nothing delivered to / indexed for remote A may show up in remote B's index or answers.
 
+The cache holds 2-4 non-empty trees, loose files and - in two worlds of five - one EMPTY directory (no files: the
+"[]" listing object EMPTY_DIR). It is a directory object like any other for every rule and clause; since it lists
+nothing, only its own presence in the remote can vouch for it (an index entry for it must be re-validated and
+dropped like the entry of any other directory object).
+
 Model (all from direct os.walk listings, never through the code under test):
   ever     = ids ever observed in the remote (after set-up and after every step; objects only ever
              disappear through the machine's own delete_remote rule, so a listing after every step sees
